@@ -83,13 +83,11 @@ func (stp *STP) NextLayerType() gopacket.LayerType {
 
 // Check if the priority value is correct.
 func checkPriority(prio uint16) (uint16, error) {
-	if prio == 0 {
-		return prio, errors.New("Invalid Priority value must be in the rage <4096-61440> with an increment of 4096")
-	}
+	// 0 is a valid (the best) bridge priority, and what DecodeFromBytes yields for it
 	if prio%4096 == 0 {
 		return prio, nil
 	} else {
-		return prio, errors.New("Invalid Priority value must be in the rage <4096-61440> with an increment of 4096")
+		return prio, errors.New("Invalid Priority value must be in the rage <0-61440> with an increment of 4096")
 	}
 }
 
@@ -98,6 +96,17 @@ func checkPriority(prio uint16) (uint16, error) {
 // See the docs for gopacket.SerializableLayer for more info.
 func (s *STP) SerializeTo(b gopacket.SerializeBuffer, opts gopacket.SerializeOptions) error {
 	var flags uint8 = 0x00
+	prioRoot, err := checkPriority(s.RouteID.Priority)
+	if err != nil {
+		return err
+	}
+	prioBridge, err := checkPriority(s.BridgeID.Priority)
+	if err != nil {
+		return err
+	}
+	if s.RouteID.SysID >= 4096 || s.BridgeID.SysID >= 4096 {
+		return errors.New("Invalid VlanID value ..!")
+	}
 	bytes, err := b.PrependBytes(35)
 	if err != nil {
 		return err
@@ -113,26 +122,14 @@ func (s *STP) SerializeTo(b gopacket.SerializeBuffer, opts gopacket.SerializeOpt
 	}
 	bytes[4] = flags
 
-	prioRoot, err := checkPriority(s.RouteID.Priority)
-	if err != nil {
-		panic(err)
-	}
-	if s.RouteID.SysID >= 4096 {
-		panic("Invalid VlanID value ..!")
-	}
 	binary.BigEndian.PutUint16(bytes[5:7], prioRoot|s.RouteID.SysID)
+	copy(bytes[7:13], make([]byte, 6)) // the address may be shorter than 6 octets
 	copy(bytes[7:13], s.RouteID.HwAddr)
 
 	binary.BigEndian.PutUint32(bytes[13:17], s.Cost)
 
-	prioBridge, err := checkPriority(s.BridgeID.Priority)
-	if err != nil {
-		panic(err)
-	}
-	if s.BridgeID.SysID >= 4096 {
-		panic("Invalid VlanID value ..!")
-	}
 	binary.BigEndian.PutUint16(bytes[17:19], prioBridge|s.BridgeID.SysID)
+	copy(bytes[19:25], make([]byte, 6))
 	copy(bytes[19:25], s.BridgeID.HwAddr)
 
 	binary.BigEndian.PutUint16(bytes[25:27], s.PortID)
